@@ -18,7 +18,10 @@ import (
 // indcpacom instantiated with ElGamal: plaintext μ·G, nonce r, ciphertext (r·G, μ·G + r·x·G).
 // The harness chooses the secret x, so both ciphertext components are tied in the exponent.
 
-type egElem[E any, S any] interface {
+type egElem[E interface {
+	algebra.PrimeGroupElement[E, S]
+	elgamal.FiniteCyclicGroupElement[E, S]
+}, S algebra.PrimeFieldElement[S]] interface {
 	algebra.PrimeGroupElement[E, S]
 	elgamal.FiniteCyclicGroupElement[E, S]
 }
